@@ -157,6 +157,30 @@ def run(tier, seed):
         if ok != (0 < v <= DOC_MAX):
             ck.violation('range-limit', 'validate_sashimi_range(%d) %s' % (v, 'accepts' if ok else 'rejects'),
                          {'kind': 'range', 'value': v})
+    # the schedule as the validator enforces it: with a short halving interval (parameter override), rewards at the last
+    # height of an era, the first height of the next and one later are bounded by the subsidy OF THAT HEIGHT
+    import chaingen
+    import consensus_check
+    import mutators
+    keys = chaingen.Keys()
+    with chaingen.Env(period=50, interval=4) as env:
+        tg = chaingen.TreeGen(env, keys, ck.rng)
+        n = tg.genesis
+        for hgt in range(1, 10):
+            cs = chaingen.impl_state_from(tg.nodes)
+            for c in mutators.mutants(tg, n, ck.rng, tags=('C02',)):
+                if not c['label'].startswith(('reward-', 'control-reward', 'control-plain')):
+                    continue
+                v, _ = consensus_check.impl_verdict(cs, c['block'], c['now'])
+                ck.case(('validator', hgt, c['label']), kind='validator/%s' % ('accept' if v == [1] else 'reject'))
+                if (v == [1]) != (c['expect'] == 'accept'):
+                    ck.violation('validator-reward-bound-height-%d' % hgt,
+                                 'with halving interval 4, a block at height %d (subsidy %d) with %s is %s by full validation'
+                                 % (hgt, env.subsidy(hgt), c['label'], 'accepted' if v == [1] else 'rejected'),
+                                 {'kind': 'validator', 'height': hgt, 'label': c['label'], 'interval': 4,
+                                  'prefix': [m.block.serialize().hex() for m in tg.nodes], 'block': c['block'].serialize().hex(),
+                                  'now': c['now'], 'period': 50, 'span': env.span})
+            n = tg.extend(n, txs=[], fees=0)
     if tier == 'thorough':
         n = 31 * DOC_INTERVAL
         step = n // 64 + 1
@@ -189,5 +213,10 @@ def replay(path):
             got = 'raises %r' % (e,)
         print('get_block_subsidy(%d) = %s ; documented schedule: %d' % (h, got, spec(h)))
         return 0 if got == spec(h) else 1
+    if rp.get('kind') == 'validator':
+        import consensus_check
+        v = consensus_check.replay_case(rp)
+        print('block at height %d (%s) -> implementation verdict %s (1 = accepted)' % (rp['height'], rp['label'], v))
+        return 1 if (v[0] == 1) != rp['label'].startswith('control') else 0
     print(json.dumps(d, indent=1))
     return 1
